@@ -23,9 +23,6 @@ Section AMapFacts.
   Lemma keqb_trans_eq : forall k a b, keqb k a = true -> keqb k b = keqb a b.
   Proof. intros k a b H. apply keqb_spec in H. subst. reflexivity. Qed.
 
-  (** wf: every key occurs once. *)
-  Definition wf (l : amap K) : Prop := NoDup (map fst l).
-
   Lemma aget_aput : forall l k v k',
     aget keqb (aput keqb k v l) k' = if keqb k' k then Some v else aget keqb l k'.
   Proof.
